@@ -445,7 +445,8 @@ fn emit_highlight(w: &mut World, out: &mut impl Write, id: &str, root: usize, va
         let r: Vec<String> = rs.iter().map(|(s, e)| format!("{s}-{e}")).collect();
         writeln!(out, "inj {} {}", li + 1, r.join(",")).unwrap();
     }
-    let pairs = local_pairs(&w.langs[root], src);
+    // (only when every capture name is recognised: then every definition leaf has its own Start)
+    let pairs = if names_mode == "all" || names_mode == "generic" { local_pairs(&w.langs[root], src) } else { vec![] };
     if !pairs.is_empty() {
         let p: Vec<String> = pairs.iter().map(|(a, b, c, d)| format!("{a}-{b}-{c}-{d}")).collect();
         writeln!(out, "locals {}", p.join(",")).unwrap();
